@@ -79,7 +79,13 @@ fn summ_float<T: F>(case: &Value, out: &mut Vec<Value>) {
     let q = |x: T, sub: f64| quant(x.g() - sub, qe);
     let (outc, res): (String, Value) = match stat {
         "mean" => res_json(guarded(|| SummaryStatisticsExt::mean(&av)), |v| q(unscale(v, 1), base)),
-        "harmonic" => res_json(guarded(|| av.harmonic_mean()), |v| q(unscale(v, 1), 0.0)),
+        "harmonic" => {
+            // the harmonic mean is odd: the same data negated (all negative) gives the negated result
+            let neg = av.mapv(|x| -x);
+            let rn = match guarded(|| neg.harmonic_mean()) { Ok(Ok(v)) => q(unscale(v, 1), 0.0), _ => json!(ERR_Q) };
+            o.insert("res_neg".into(), rn);
+            res_json(guarded(|| av.harmonic_mean()), |v| q(unscale(v, 1), 0.0))
+        }
         "geometric" => res_json(guarded(|| av.geometric_mean()), |v| quant(v.g().log2(), qe)),
         "moment" => res_json(guarded(|| av.central_moment(p)), |v| json!({"q": q(unscale(v, p as i32), 0.0), "one": v.g().to_bits() == 1.0f64.to_bits() || v == T::one(), "zero": v == T::zero()})),
         "moments" => res_json(guarded(|| av.central_moments(p)), |v| {
@@ -159,6 +165,12 @@ fn summ_int(case: &Value, out: &mut Vec<Value>) {
                 let bo = if l2.forder { let mut t = Array::zeros(bv.raw_dim().f()); t.assign(&bv); t } else { bv.to_owned() };
                 if stat == "wsum_int" { res_json(guarded(|| av.weighted_sum(&bo)), |v| json!(v as i64)) }
                 else { res_json(guarded(|| av.weighted_mean(&bo)), |v| json!(v as i64)) }
+            }
+            "wsum_axis_int" | "wmean_axis_int" => {
+                let axis = case.get("axis").and_then(|x| x.as_i64()).unwrap_or(0) as usize;
+                let w1: Array1<$t> = ws.iter().cloned().collect();
+                if stat == "wsum_axis_int" { res_json(guarded(|| av.weighted_sum_axis(Axis(axis), &w1)), |v| json!({"q": v.iter().map(|&x| x as i64).collect::<Vec<_>>()})) }
+                else { res_json(guarded(|| av.weighted_mean_axis(Axis(axis), &w1)), |v| json!({"q": v.iter().map(|&x| x as i64).collect::<Vec<_>>()})) }
             }
             _ => panic!("unknown int stat {stat}"),
         }
@@ -264,6 +276,10 @@ fn dev_ev(case: &Value, out: &mut Vec<Value>) {
         let (va, vb) = (l1.view(&pa), l2.view(&pb));
         let toi = |v: $t, pow: i32| -> Value { quant(v as f64, if pow == 2 { 4 } else { 2 }) };
         let mv = maxv as $t / 4.0;
+        // the ratio is scale invariant: both signals and the peak scaled by 2^-40 (a mean squared error far below machine epsilon)
+        let sc = (2.0 as $t).powi(-40);
+        let small = guarded(|| va.mapv(|x| x * sc).peak_signal_to_noise_ratio(&vb.mapv(|x| x * sc), mv * sc));
+        o.insert("psnr_small".into(), match small { Ok(Ok(v)) => quant(v, qe), _ => json!(ERR_Q) });
         let hi = mv * (10.0 as $t).powi($hik);
         o.insert("hik".into(), json!($hik));
         o.insert("fwd".into(), measures!(va.clone(), vb.clone(), toi, 0, mv, hi, -mv));
@@ -355,7 +371,7 @@ fn devnan_ev(case: &Value, out: &mut Vec<Value>) {
     let b = jints(&case["b"]);
     let shape = shape_of(case, a.len());
     let (l1, l2) = (lay_of(case, "lay1", &shape), lay_of(case, "lay2", &shape));
-    let mk = |v: i64| -> f64 { if v == 99 { nan64() } else if v == 98 { f64::INFINITY } else { v as f64 / 4.0 } };
+    let mk = |v: i64| -> f64 { if v == 99 { nan64() } else if v == 98 || v == 97 { f64::INFINITY } else { v as f64 / 4.0 } };
     let (pa, pb) = (l1.build(&a.iter().map(|&v| mk(v)).collect::<Vec<_>>(), |_| 77.0), l2.build(&b.iter().map(|&v| mk(v)).collect::<Vec<_>>(), |_| 55.0));
     let (va, vb) = (l1.view(&pa), l2.view(&pb));
     let c = |r: Result<Result<usize, ndarray_stats::errors::MultiInputError>, ()>| -> i64 { match r { Ok(Ok(v)) => v as i64, _ => -1 } };
@@ -421,7 +437,7 @@ pub fn gen(seed: u64, count: usize, tier: &str, params: &Params) -> Vec<Value> {
     for _ in 0..count {
         match *rng.pick(&kinds) {
             "c06" => {
-                let stat = *rng.pick(&["mean", "mean", "wsum", "wmean", "harmonic", "geometric", "wsum_axis", "wmean_axis", "mean_int", "wsum_int", "wmean_int"]);
+                let stat = *rng.pick(&["mean", "mean", "wsum", "wmean", "harmonic", "geometric", "wsum_axis", "wmean_axis", "mean_int", "wsum_int", "wmean_int", "wsum_axis_int", "wmean_axis_int"]);
                 // now and then a long array (blocked / unrolled accumulation has its corner cases beyond a block length)
                 let long = rng.chance(1, 10) && matches!(stat, "mean" | "wsum" | "wmean" | "mean_int" | "wsum_int" | "wmean_int" | "geometric" | "harmonic");
                 let n = if long { *rng.pick(&[127usize, 128, 129, 130, 131, 255, 257, 300]) } else { rng.range(1, if big { 12 } else { 8 }) as usize };
@@ -439,7 +455,7 @@ pub fn gen(seed: u64, count: usize, tier: &str, params: &Params) -> Vec<Value> {
                                                                _ => if ty == "u8" { rng.range(0, rmax) } else { rng.range(-rmax, rmax) } }).collect();
                 if stat == "geometric" && gstyle == 3 { r.sort(); r.reverse(); }
                 let axis = rng.below(shape.len() as u64) as usize;
-                let wl = if stat.ends_with("_axis") { shape[axis] } else { n };
+                let wl = if stat.ends_with("_axis") || stat.ends_with("_axis_int") { shape[axis] } else { n };
                 let mut w: Vec<i64> = (0..wl).map(|_| rng.range(0, if ty == "u8" && long { 1 } else { 4 })).collect();
                 if w.iter().sum::<i64>() == 0 { w[0] = 1; }
                 let bexp = if matches!(stat, "mean" | "wmean" | "wmean_axis") && !f32ty && !long { *rng.pick(&[-1i64, -1, 10, 20, 30]) } else { -1 };
@@ -610,7 +626,8 @@ pub fn gen(seed: u64, count: usize, tier: &str, params: &Params) -> Vec<Value> {
                 let inf_case = rng.chance(1, 3);
                 let mut a: Vec<i64> = (0..n).map(|_| if !inf_case && rng.chance(1, 4) { 99 } else { rng.range(-3, 3) }).collect();
                 let b: Vec<i64> = a.iter().map(|&v| if rng.chance(1, 2) { v } else if !inf_case && rng.chance(1, 4) { 99 } else { rng.range(-3, 3) }).collect();
-                if inf_case { let k = rng.below(n as u64) as usize; a[k] = 98; }
+                let mut b = b;
+                if inf_case { let k = rng.below(n as u64) as usize; if rng.chance(1, 3) { a[k] = 97; b[k] = 97; } else { a[k] = 98; } }
                 cases.push(json!({"ev": "devnan", "a": a, "b": b, "shape": shape, "lay1": lay1, "lay2": lay2}));
             }
             "dev" => {
